@@ -166,7 +166,7 @@ type cctpWrap struct {
 func (c cctpWrap) DepositForBurn(ctx context.Context, m *cctptypes.MsgDepositForBurn) (*cctptypes.MsgDepositForBurnResponse, error) {
 	c.i.reqs = append(c.i.reqs, Req{Route: "CCTP", WithCaller: false, From: c.i.w.nameOfAddr(m.From),
 		Amt: toInt(m.Amount, "cctp req"), Denom: m.BurnToken, Dom: int64(m.DestinationDomain),
-		Mint: c.i.w.nameOfBytes(m.MintRecipient), Caller: "NONE", Tok: "NONE", Rcp: "NONE", Hook: "NONE", Meta: "NONE", To: "NONE", Full: true})
+		Mint: c.i.w.nameOfBytes(m.MintRecipient), Caller: "NONE", Tok: "NONE", Rcp: "NONE", Hook: "NONE", Meta: "NONE", To: "NONE", Mfd: "NONE", Full: true})
 	if c.i.fail("cctpBurn") {
 		return nil, errInjected
 	}
@@ -177,7 +177,7 @@ func (c cctpWrap) DepositForBurnWithCaller(ctx context.Context, m *cctptypes.Msg
 	c.i.reqs = append(c.i.reqs, Req{Route: "CCTP", WithCaller: true, From: c.i.w.nameOfAddr(m.From),
 		Amt: toInt(m.Amount, "cctp req"), Denom: m.BurnToken, Dom: int64(m.DestinationDomain),
 		Mint: c.i.w.nameOfBytes(m.MintRecipient), Caller: c.i.w.nameOfBytes(m.DestinationCaller),
-		Tok: "NONE", Rcp: "NONE", Hook: "NONE", Meta: "NONE", To: "NONE", Full: true})
+		Tok: "NONE", Rcp: "NONE", Hook: "NONE", Meta: "NONE", To: "NONE", Mfd: "NONE", Full: true})
 	if c.i.fail("cctpBurn") {
 		return nil, errInjected
 	}
@@ -187,7 +187,7 @@ func (c cctpWrap) DepositForBurnWithCaller(ctx context.Context, m *cctptypes.Msg
 func (c cctpWrap) ReplaceDepositForBurn(ctx context.Context, m *cctptypes.MsgReplaceDepositForBurn) (*cctptypes.MsgReplaceDepositForBurnResponse, error) {
 	c.i.reqs = append(c.i.reqs, Req{Route: "CCTP_REPLACE", From: c.i.w.nameOfAddr(m.From),
 		Mint: c.i.w.nameOfBytes(m.NewMintRecipient), Caller: c.i.w.nameOfBytes(m.NewDestinationCaller),
-		Tok: string(m.OriginalMessage), Rcp: string(m.OriginalAttestation), Hook: "NONE", Meta: "NONE", To: "NONE", Denom: "NONE", Full: true})
+		Tok: string(m.OriginalMessage), Rcp: string(m.OriginalAttestation), Hook: "NONE", Meta: "NONE", To: "NONE", Denom: "NONE", Mfd: "NONE", Full: true})
 	if c.i.fail("cctpReplace") {
 		return nil, errInjected
 	}
@@ -218,7 +218,7 @@ func (h hypWrap) RemoteTransfer(ctx context.Context, m *warptypes.MsgRemoteTrans
 	h.i.reqs = append(h.i.reqs, Req{Route: "HYP", From: h.i.w.nameOfAddr(m.Sender), Amt: toInt(m.Amount, "hyp req"),
 		Denom: "?", Dom: int64(m.DestinationDomain), Tok: h.i.w.nameOfBytes(m.TokenId.Bytes()),
 		Rcp: h.i.w.nameOfBytes(m.Recipient.Bytes()), Hook: hook, Gas: toInt(m.GasLimit, "gas"),
-		MaxFee: toInt(m.MaxFee.Amount, "maxfee"), Meta: meta, Mint: "NONE", Caller: "NONE", To: "NONE", Full: true})
+		MaxFee: toInt(m.MaxFee.Amount, "maxfee"), Mfd: m.MaxFee.Denom, Meta: meta, Mint: "NONE", Caller: "NONE", To: "NONE", Full: true})
 	if h.i.fail("hypTransfer") {
 		return nil, errInjected
 	}
@@ -232,7 +232,7 @@ type intWrap struct {
 
 func (s intWrap) Send(ctx context.Context, m *banktypes.MsgSend) (*banktypes.MsgSendResponse, error) {
 	rq := Req{Route: "INT", From: s.i.w.nameOfAddr(m.FromAddress), To: s.i.w.nameOfAddr(m.ToAddress),
-		Mint: "NONE", Caller: "NONE", Tok: "NONE", Rcp: "NONE", Hook: "NONE", Meta: "NONE", Full: true}
+		Mint: "NONE", Caller: "NONE", Tok: "NONE", Rcp: "NONE", Hook: "NONE", Meta: "NONE", Mfd: "NONE", Full: true}
 	if len(m.Amount) == 1 {
 		rq.Amt = toInt(m.Amount[0].Amount, "int req")
 		rq.Denom = m.Amount[0].Denom
